@@ -53,18 +53,16 @@ fn bnd_frame_lanes_ib() {
     kani::cover!(r.is_ok() && !has_fatal);
 }
 
-// @harness id=bnd_groupings_nopanic props=C04 kind=bnd tier=quick bound=lanes<=2,fatal<=1 fns=validate_inner_lane_groupings stubs=alloc::fmt::format
+// @harness id=bnd_groupings_nopanic props=C04 kind=bnd tier=quick bound=lanes=0,fatal=1 fns=validate_inner_lane_groupings stubs=alloc::fmt::format
 // No precondition on the fatal lane number: it is the 5 LSB of a (possibly corrupted) data word id, 0..=31.
 #[kani::proof]
 #[kani::stub(alloc::fmt::format, stub_format_nonempty)]
 #[kani::unwind(6)]
 fn bnd_groupings_nopanic() {
-    let n: usize = kani::any();
-    kani::assume(n <= 2);
-    let ids: [u8; 16] = kani::any();
-    let f = frame_with(Layer::Inner, n, &ids);
+    // (no lane data at all: the crash site is the handling of the fatal lane list itself)
+    let frames: [LaneDataFrame; 0] = [];
     let fl: u8 = kani::any();
     kani::assume(fl < 32);
     let fatal = [fl];
-    let _ = validate_inner_lane_groupings(&f.lane_data_frames, Some(&fatal[..]));
+    let _ = validate_inner_lane_groupings(&frames[..], Some(&fatal[..]));
 }
